@@ -1065,9 +1065,18 @@ Qed.
 (* F6: the tour emptied by a state handler of the same refresh is counted: [2; 0] where the remaining tours give [2] *)
 Lemma restore_counts_tour_emptied_by_handler :
   let es := goal_table udur udist cfg_activities in
-  let s' := restore_with_restart drop_markers es
+  let s' := restore_with_restart false drop_markers es
               (mkS [wfresh cfg_activities wtour2; wfresh cfg_activities wtourm] (fun _ => None)) in
   map rc_tour (s_routes s') = [wtour2] /\
   s_aggs s' (K_BAL OActivities) = Some (SVec [VZ 2; VZ 0]) /\
   spec_aggs udur udist cfg_activities [wtour2] (K_BAL OActivities) = Some (SVec [VZ 2]).
 Proof. vm_compute. auto. Qed.
+(* the same with the second refresh the code runs now when the final clean-up removed a tour *)
+Lemma restore_after_handler_emptied_tour_repaired :
+  let es := goal_table udur udist cfg_activities in
+  let s' := restore_with_restart true drop_markers es
+              (mkS [wfresh cfg_activities wtour2; wfresh cfg_activities wtourm] (fun _ => None)) in
+  map rc_tour (s_routes s') = [wtour2] /\ Forall (fun r => rc_stale r = false) (s_routes s') /\
+  s_aggs s' (K_BAL OActivities) = Some (SVec [VZ 2]) /\
+  spec_aggs udur udist cfg_activities [wtour2] (K_BAL OActivities) = Some (SVec [VZ 2]).
+Proof. vm_compute. repeat split; auto. Qed.
